@@ -168,21 +168,14 @@ def run(ctx: Ctx):
     ctx.floor("R4.2", n_sites, 1, "frame-table read sites reached from __call__")
 
     # ------------------------------------------------------------------ R4.3
+    # path form: on every path through __call__ the first statement with a write effect is preceded by both tests
+    # having come out "is a Molecule" / "equals the construction reference"; every path on which one of them fails
+    # ends in `raise TypeError` with nothing written.  Single-exit error flags are read through (cfg.resolve_flags).
+    from ..cfg import resolve_flags, conjuncts
     param = [p for p in f.params if p != "self"][0]
-    guards = [n for n in walk_no_nested(f.node) if isinstance(n, ast.If) and branch_raises(n.body)
-              and any(isinstance(x, ast.Raise) and "TypeError" in norm(x) for s in n.body for x in ast.walk(s))]
-    kinds = set()
-    for g in guards:
-        t = norm(g.test).replace(" ", "")
-        if t == "notisinstance(%s,Molecule)" % param:
-            kinds.add("type")
-        if t in ("self._refmolecule!=%s" % param, "%s!=self._refmolecule" % param,
-                 "notself._refmolecule==%s" % param, "not%s==self._refmolecule" % param):
-            kinds.add("species")
-    # effectful statements of __call__
     effectful = []
     for st in walk_no_nested(f.node):
-        if not isinstance(st, ast.stmt) or isinstance(st, (ast.If, ast.FunctionDef)):
+        if not isinstance(st, ast.stmt) or isinstance(st, (ast.If, ast.FunctionDef, ast.Raise)):
             continue
         eff = False
         for node, g, binding, recv in E.calls(f):
@@ -191,18 +184,48 @@ def run(ctx: Ctx):
                     eff = True
         if any(e.line == st.lineno for e in E.direct(f)):
             eff = True
-        if eff and not any(st is x for gd in guards for x in ast.walk(gd)):
+        if eff:
             effectful.append(st)
-    ok = kinds == {"type", "species"} and bool(effectful)
-    for g in guards:
-        gid = cfg.node_of(g).id
-        for st in effectful:
-            if gid not in dom[cfg.node_of(st).id]:
-                ok = False
-    ctx.ob("R4.3", f, "guards %s before effectful statements %s" % ([norm(g.test) for g in guards], [norm(s)[:50] for s in effectful]),
-           ok, "a non-molecule or a molecule of another species is rejected with TypeError before anything is written",
-           node=guards[0] if guards else f.node, guard_kinds=sorted(kinds))
-    ctx.floor("R4.3", len(guards), 2, "raising guards")
+    eff_ids = {id(s_) for s_ in effectful}
+    lit_type = "isinstance(%s,Molecule)" % param
+    lit_species = "%s==%s" % tuple(sorted(["self._refmolecule", param]))
+    kinds = set()
+    bad_paths, n_paths, undec = [], 0, None
+    try:
+        paths = resolve_flags(enum_paths(f.node.body))
+    except AnalysisError as e:
+        paths, undec = [], str(e)
+    for pth in paths:
+        n_paths += 1
+        seen = {}
+        verdict = None
+        for ev in pth.events:
+            if ev[0] == "c":
+                for txt, pol in conjuncts(ev[1], ev[2]):
+                    if txt in (lit_type, lit_species):
+                        seen.setdefault(txt, pol)
+                        kinds.add("type" if txt == lit_type else "species")
+            elif ev[0] == "s" and id(ev[1]) in eff_ids:
+                if seen.get(lit_type) is not True or seen.get(lit_species) is not True:
+                    verdict = "`%s` runs before both tests have passed" % norm(ev[1])[:60]
+                break
+            elif ev[0] in ("loop0", "loop1", "exc") and any(id(x) in eff_ids for x in ast.walk(ev[1])):
+                if seen.get(lit_type) is not True or seen.get(lit_species) is not True:
+                    verdict = "a loop with effects runs before both tests have passed"
+                break
+        failed = [t for t in (lit_type, lit_species) if seen.get(t) is False]
+        if verdict is None and failed:
+            if pth.end != "raise" or "TypeError" not in norm(pth.end_node):
+                verdict = "the path on which `%s` is false does not end in raise TypeError (%s)" % (failed[0], pth.end)
+        if verdict:
+            bad_paths.append(verdict)
+    guards = [n for n in walk_no_nested(f.node) if isinstance(n, ast.Raise) and "TypeError" in norm(n)]
+    ok = kinds == {"type", "species"} and bool(effectful) and not bad_paths
+    ctx.ob("R4.3", f, "tests %s before effectful statements %s on %d paths" % (sorted(kinds), [norm(s)[:50] for s in effectful], n_paths),
+           ok, "a non-molecule or a molecule of another species is rejected with TypeError before anything is written"
+           + ("" if ok else " -- %s" % (bad_paths[0] if bad_paths else "tests found: %s" % sorted(kinds))),
+           node=guards[0] if guards else f.node, guard_kinds=sorted(kinds), undecided=undec)
+    ctx.floor("R4.3", len(guards), 1, "raise TypeError sites")
     # the guards themselves are effect-free (equality only reads)
     eq = ctx.repo.func("Molecule.__eq__", required=False)
     if eq is not None:
